@@ -155,6 +155,7 @@ def run(ctx):
         extra = " sqopen=0.85 sqclose=%.2f" % (0.4 + rng.below(31) / 100.0) if j % 4 == 2 else ""
         rx_lines.append(tx.line(script=script, extra=extra.strip())); rx_meta.append((tx, data, lead))
     res = rxlib.run_rx(rx_lines)
+    ctx.coverage["reuse_after_reset_same_bursts"] = rxlib.reset_reuse(ctx, rng.fork("reset"), 2 if quick else 20, lambda t: t.startswith("LB"), True, "bursts")
     rx_ok = 0
     for (tx, data, lead), r, line in zip(rx_meta, res, rx_lines):
         if r.get("error"):
